@@ -135,8 +135,8 @@ class Check(AddCheck):
     def violation(self, case, io, claim, before):
         if 'classerr' in io or io.get('err') not in (None,):
             if io.get('err') and io['err'] not in ('MosMergeError', 'MosCompletedMergeError') and \
-                    io.get('cls') in ('StoryDelete', 'EAStoryDelete', 'ItemDelete', 'EAItemDelete'):
-                # a delete of a schema-shaped message either raises MosMergeError or warns per missing element:
+                    io.get('cls') in ('StoryDelete', 'EAStoryDelete', 'ItemDelete', 'EAItemDelete', 'StoryInsert', 'EAStoryInsert'):
+                # a delete / a story insert of a schema-shaped message either raises MosMergeError or warns per missing / duplicate element:
                 # a built-in exception is neither (also C12's business; decided here only inside the guards)
                 fl, = engine.schema_flags([case])
                 if fl and fl['wf'] and fl['schema'] and fl['timing']:
